@@ -25,8 +25,22 @@ def _gen(task):
         g = engc.VCGen(tu, cfile, consts)
         obls = g.function(fname)
         vcs = []
+        # fast pass: one incremental solver per function holding the quantifier-free hypotheses (they only grow along the
+        # function); each goal is tried there first with a small budget.  Fewer hypotheses: sound for proving.
+        fast = z3.Solver(); fast.set('timeout', 1500)
+        nfast = 0
+        t_fast = 0.0
         for o in obls:
             parts = solve.split_goal(o.goal)
+            pre = o.hyp[:-1]; guard = o.hyp[-1]
+            if len(pre) >= nfast and all(a is b for a, b in zip(pre[:nfast], g.assumes[:nfast])):
+                for h in pre[nfast:]:
+                    if not solve.has_quantifier(h) and h.get_id() not in g.math_axioms:
+                        fast.add(h)
+                nfast = len(pre)
+                usable = True
+            else:
+                usable = False
             for i, p in enumerate(parts):
                 sp = z3.simplify(p)
                 vid = o.id if len(parts) == 1 else '%s#%d' % (o.id, i)
@@ -35,6 +49,24 @@ def _gen(task):
                     base.update(status='unsat', backend='simplifier', time=0.0, smt2=None)
                 else:
                     hyp2, p2 = solve.skolemize(o.hyp, p)
+                    if usable and t_fast < 60:
+                        tf = time.time()
+                        fast.push()
+                        try:
+                            fast.add(guard)
+                            for h in hyp2[len(o.hyp):]:
+                                if not solve.has_quantifier(h):
+                                    fast.add(h)
+                            fast.add(z3.Not(p2))
+                            rf = fast.check()
+                        except z3.Z3Exception:
+                            rf = z3.unknown
+                        fast.pop()
+                        t_fast += time.time() - tf
+                        if rf == z3.unsat:
+                            base.update(status='unsat', backend='z3-%s (incremental, quantifier-free relaxation)' % z3.get_version_string(), time=time.time() - tf, smt2=None)
+                            vcs.append(base)
+                            continue
                     base['smt2'] = solve.to_smt2(hyp2, p2)
                     qf = [h for h in hyp2 if not solve.has_quantifier(h)]
                     qf0 = [h for h in qf if h.get_id() not in g.math_axioms]
